@@ -156,9 +156,9 @@ class Ctx:
                 print(f"KNOWN-FINDING: property={self.pid} {entry.get('what') or v['what']}")
             else:
                 new.append(v)
-        # a run against a scratch worktree (VERIF_REPO: evaluation of a deliberately broken version) must never overwrite the
+        # a run against a scratch worktree (VERIF_REPO) or a deliberately patched /repo (VERIF_SCRATCH, set by tools/seed_eval.py) must never overwrite the
         # evidence / replays of the real tree
-        scratch = "_scratch" if os.environ.get("VERIF_REPO") else ""
+        scratch = "_scratch" if (os.environ.get("VERIF_REPO") or os.environ.get("VERIF_SCRATCH")) else ""
         rdir = os.path.join(ROOT, "replays" + scratch, self.pid)
         os.makedirs(rdir, exist_ok=True)
         for old in os.listdir(rdir):  # replays always describe the latest run only
